@@ -23,3 +23,46 @@ theorem affine_scales_area (p1 p2 p3 : ℚ × ℚ) (u v w : ℚ × ℚ) :
   unfold area2 fromBary; simp only; ring
 
 end A5.C14
+
+namespace A5.C14
+
+/-! ### arbitrary polygons, not only triangles -/
+
+/-- twice the signed area of a closed ring (first vertex repeated at the end): Σ a × b over consecutive vertices -/
+def ring2 : List (ℚ × ℚ) → ℚ
+  | a :: b :: r => (a.1 * b.2 - b.1 * a.2) + ring2 (b :: r)
+  | _ => 0
+
+/-- an affine map v ↦ M v + t -/
+def aff (m11 m12 m21 m22 t1 t2 : ℚ) (v : ℚ × ℚ) : ℚ × ℚ := (m11 * v.1 + m12 * v.2 + t1, m21 * v.1 + m22 * v.2 + t2)
+
+/-- open-chain version: the image of a chain differs from det · (chain) by a boundary term that only involves its two end points -/
+theorem ring2_aff_chain (m11 m12 m21 m22 t1 t2 : ℚ) (a : ℚ × ℚ) (l : List (ℚ × ℚ)) :
+    ring2 ((a :: l).map (aff m11 m12 m21 m22 t1 t2))
+      = (m11 * m22 - m12 * m21) * ring2 (a :: l)
+        + (t1 * ((m21 * ((a :: l).getLast (by simp)).1 + m22 * ((a :: l).getLast (by simp)).2) - (m21 * a.1 + m22 * a.2))
+           - t2 * ((m11 * ((a :: l).getLast (by simp)).1 + m12 * ((a :: l).getLast (by simp)).2) - (m11 * a.1 + m12 * a.2))) := by
+  induction l generalizing a with
+  | nil => simp [ring2]
+  | cons b r ih =>
+    have hb := ih b
+    simp only [List.map_cons] at hb ⊢
+    rw [ring2, hb, ring2]
+    simp only [List.getLast_cons_cons]
+    simp only [aff]
+    ring
+
+/-- C14 (affine stage, any region): an affine map multiplies the shoelace area of EVERY closed polygon — any number of vertices,
+    convex or not, wherever it lies — by its determinant.  (For the barycentric → face stage the determinant is twice the area of the
+    face triangle: `affine_scales_area`.) -/
+theorem affine_scales_polygon (m11 m12 m21 m22 t1 t2 : ℚ) (a : ℚ × ℚ) (l : List (ℚ × ℚ))
+    (hclosed : (a :: l).getLast (by simp) = a) :
+    ring2 ((a :: l).map (aff m11 m12 m21 m22 t1 t2)) = (m11 * m22 - m12 * m21) * ring2 (a :: l) := by
+  rw [ring2_aff_chain, hclosed]; ring
+
+/-- non-vacuity: a closed non-convex hexagon of area 3 (ring2 = 6), stretched by a map of determinant 6 -/
+example : ring2 [((0 : ℚ), (0 : ℚ)), (2, 0), (2, 2), (1, 1), (0, 2), (0, 0)] = 6 := by norm_num [ring2]
+example : ring2 ([((0 : ℚ), (0 : ℚ)), (2, 0), (2, 2), (1, 1), (0, 2), (0, 0)].map (aff 2 0 1 3 5 (-7))) = 36 := by
+  norm_num [ring2, aff]
+
+end A5.C14
